@@ -17,11 +17,13 @@ def run_case(exe, rundir, case, timeout=60, keep=False):
     info = None
     if "model" in case:
         info = nlgen.write_nl(case["model"], stub)
-    elif "nl_bytes" in case:
+    elif "nl_bytes" in case and not case.get("no_nl"):
         with open(stub + ".nl", "wb") as f:
             f.write(case["nl_bytes"])
+    if case.get("mk_sol_dir"):          # make the result path unwritable (works for root too)
+        os.makedirs(stub + ".sol")
     for ext, txt in case.get("files", {}).items():
-        with open(stub + ext, "w") as f:
+        with open(stub + ext, "w", newline="") as f:
             f.write(txt)
     env = dict(os.environ)
     env["VERIF_REC"] = os.path.join(d, "rec.ndjson")
@@ -56,7 +58,7 @@ def run_case(exe, rundir, case, timeout=60, keep=False):
                     rec.append({"e": "BadRecLine", "text": line[:200]})
     res["rec"] = rec
     sp = stub + ".sol"
-    if os.path.exists(sp):
+    if os.path.isfile(sp):
         res["sol_present"] = True
         try:
             res["sol"] = nlgen.parse_sol(sp)
